@@ -88,7 +88,7 @@ func containsStr(s, sub string) bool {
 func HarnessC15Panic(st any) {
 	s := st.(*c15State)
 	pv := sym.Choose("value", nPanicValues)
-	progress := sym.Choose("progress", 3) // 0 nothing, 1 header only, 2 partial body
+	progress := sym.Choose("progress", 4) // 0 nothing, 1 header only, 2 partial body, 3 flushed only
 	val, abort, broken := panicValue(pv)
 	s.behave = func(c fox.Context) {
 		switch progress {
@@ -96,6 +96,8 @@ func HarnessC15Panic(st any) {
 			c.Writer().WriteHeader(202)
 		case 2:
 			_, _ = c.Writer().Write([]byte("ab"))
+		case 3:
+			_ = c.Writer().FlushError()
 		}
 		if pv == 8 {
 			var m map[string]int
@@ -109,11 +111,20 @@ func HarnessC15Panic(st any) {
 	}
 	req.Header = http.Header{"X-Trace": {"t-123"}}
 	s.sink.recs = nil
-	g, escaped := serveCapture(s.r, req)
+	var g *ghost
+	var escaped any
+	if progress == 3 {
+		// a writer offering FlushError: the flush sends the (implicit 200) header
+		g = &ghost{sc: &script{}, hdr: http.Header{}}
+		escaped = panicsWith(func() { s.r.ServeHTTP(richW{g, &capCalls{}}, req) })
+		sym.Cover("panic after a flush")
+	} else {
+		g, escaped = serveCapture(s.r, req)
+	}
 
 	wantFinals, wantBody := 0, ""
 	switch progress {
-	case 1:
+	case 1, 3:
 		wantFinals = 1
 	case 2:
 		wantFinals, wantBody = 1, "ab"
@@ -137,6 +148,9 @@ func HarnessC15Panic(st any) {
 			sym.Assert(len(g.finals) == wantFinals && string(g.body) == wantBody, "an already started response (or a broken connection) is left untouched")
 			if wantFinals == 1 && progress == 1 {
 				sym.Assert(g.finals[0] == 202, "the started response keeps its status")
+			}
+			if progress == 3 && len(g.finals) == 1 {
+				sym.Assert(g.finals[0] == 200, "a flushed response keeps its status")
 			}
 		}
 		// diagnostic record
